@@ -1175,6 +1175,24 @@ fn main() {
 
     // ---- worlds and their solo results (each world in its own process, run in parallel)
     let mut worlds: Vec<World> = (0..n_worlds).map(|i| gen_world(i, &mut rng, 8, 3)).collect();
+    // corpus: stored scenarios (replay format), run first; their worlds get fresh solo results
+    let mut corpus: Vec<Scenario> = vec![];
+    if let Some(dir) = args.extra.get("corpus") {
+        let mut files: Vec<_> = std::fs::read_dir(dir).map(|rd| rd.flatten().map(|e| e.path()).collect()).unwrap_or_else(|_| vec![]);
+        files.sort();
+        let reps: usize = args.extra.get("corpus_reps").and_then(|s| s.parse().ok()).unwrap_or(if thorough { 3 } else { 1 });
+        for f in files.iter().filter(|f| f.extension().map(|e| e == "json").unwrap_or(false)) {
+            let v: serde_json::Value = serde_json::from_str(&std::fs::read_to_string(f).expect("corpus file")).expect("corpus json");
+            let mut sc: Scenario = serde_json::from_value(v["case"]["scenario"].clone()).expect("corpus case.scenario");
+            sc.world.id = worlds.len();
+            sc.world.solo = vec![];
+            worlds.push(sc.world.clone());
+            for _ in 0..reps {
+                corpus.push(sc.clone());
+            }
+        }
+    }
+    let n_generated_worlds = n_worlds;
     let t_solo = Instant::now();
     {
         let files: Vec<std::path::PathBuf> = worlds
@@ -1228,13 +1246,20 @@ fn main() {
 
     // ---- scenarios
     let ns = [2usize, 4, 8, 16];
-    let scenarios: Vec<Scenario> = (0..n_scen)
-        .map(|i| {
-            let w = &worlds[i % worlds.len()];
-            let n = ns[(i / worlds.len()) % 4];
-            gen_scenario(i, &mut rng, w, n)
-        })
-        .collect();
+    let mut scenarios: Vec<Scenario> = vec![];
+    for mut sc in corpus {
+        sc.id = scenarios.len();
+        sc.world = worlds[sc.world.id].clone();
+        sc.class = format!("{}", sc.class);
+        scenarios.push(sc);
+    }
+    let n_corpus = scenarios.len();
+    for i in 0..n_scen {
+        let w = &worlds[i % n_generated_worlds];
+        let n = ns[(i / n_generated_worlds) % 4];
+        let id = scenarios.len();
+        scenarios.push(gen_scenario(id, &mut rng, w, n));
+    }
     let t_run = Instant::now();
     let next = Arc::new(AtomicU64::new(0));
     let outcomes: Arc<Mutex<BTreeMap<usize, ChildOutcome>>> = Arc::new(Mutex::new(BTreeMap::new()));
@@ -1347,6 +1372,7 @@ fn main() {
             "distinct_nontrivial": distinct.len(),
             "rule": "one evaluation = one concurrent scenario in its own process (N OS threads on sibling/nested Gluon threads of one VM, watchdog); every scenario has >= 2 threads, imports of c14.m* and allocation work, so all are non-trivial; distinct by (seed, class, N, stride, thread/unit assignment)",
             "worlds": worlds.len(),
+            "corpus_scenarios": n_corpus,
             "solo_units": worlds.iter().map(|w| w.units.len()).sum::<usize>(),
             "program_runs": hist.0.get("threads").cloned().unwrap_or(0),
             "forced_collections": forced,
